@@ -129,6 +129,8 @@ static void case_fi(Rng& r) {
     if (r.coin()) sk->merge(other); else { other.merge(*sk); *sk = other; }
     n = n1 + n2;
   }
+  bool has_long = false;
+  { T li; if (cls >= 1 && r.chance(0.08) && LongItem<T>::make(r, li)) { sk->update(li, 1ULL << 40); has_long = true; } }   // > 64 KiB item, heavy enough to survive purges
   describe(fam + " lg_max=" + std::to_string(lg_max) + " lg_start=" + std::to_string(lg_start) + " " + desc + " n=" + std::to_string(n) + " dom=" + std::to_string(dom));
   count(fam + "_" + desc);
   if (sk->get_maximum_error() > 0) count(fam + "_offset_positive");
@@ -152,7 +154,8 @@ static void case_fi(Rng& r) {
     // hash-table order, which the image does not preserve, so its purge points are not determined by the content.
     if (cr.chance(0.5)) { S other(static_cast<uint8_t>(cr.range(3, 7)), 3); fill(other, cr.below(6 * cap), 1 + cr.below(4 * cap), cr); s.merge(other); }
   };
-  roundtrip(o, *sk, r, G().cur_desc);
+  const Result res = roundtrip(o, *sk, r, G().cur_desc);
+  if (has_long && res.ok && res.image.size() > 65536) count("fi_long_string_in_image");
 }
 
 // ------------------------------------------------------------------ COUNT-MIN
@@ -266,8 +269,94 @@ static void bloom_cont(bloom_filter& f, uint64_t dom, Rng& cr) {
   else if (op == 3) (void)f.get_bits_used();
 }
 
+// A filter living in caller memory (created there, or writable_wrap of an image) goes through every mutating operation
+// from states whose stored bit count is valid and from states where it is stale; after EACH operation the caller memory
+// must be an image of the live filter: equal to serialize() (non-empty filters), and a fresh read-only wrap of it must read
+// out like an owned twin that received the same operations.
+// the stored bit count may be the all-ones "recount me" marker: an image carrying the marker and one carrying the
+// true count describe the same filter, so the marker is replaced by the population count before images are compared
+static Bytes canon_bloom_count(const Bytes& b) {
+  if (b.size() < 32 || b[0] != 4) return b;
+  bool marker = true; for (int i = 0; i < 8; ++i) marker = marker && b[24 + i] == 0xFF;
+  if (!marker) return b;
+  uint64_t n = 0; for (size_t i = 32; i < b.size(); ++i) n += static_cast<uint64_t>(__builtin_popcount(b[i]));
+  Bytes o(b); memcpy(&o[24], &n, 8); return o;
+}
+
+static void bloom_memory_ops(Rng& r) {
+  const uint64_t num_bits = static_cast<uint64_t>(r.chance(0.3) ? r.range(1, 130) : r.range(1, 1500));
+  const uint16_t nh = static_cast<uint16_t>(r.range(1, 7));
+  const uint64_t seed = r.next();
+  const uint64_t dom = 1 + r.below(200);
+  const bool via_wrap = r.chance(0.4);
+  describe(std::string("bloom memory-ops bits=") + std::to_string(num_bits) + " hashes=" + std::to_string(nh) + " via_writable_wrap=" + std::to_string(via_wrap));
+  const std::string ctx0 = G().cur_desc;
+  const std::string fam = via_wrap ? "bloom|writable-wrap|memory-ops" : "bloom|in-caller-memory|memory-ops";
+  const size_t len = bloom_filter::get_serialized_size_bytes(num_bits);
+  std::unique_ptr<uint8_t[]> mem(new uint8_t[len]);
+  memset(mem.get(), 0xCD, len);
+  bloom_filter twin = bloom_filter::builder::create_by_size(num_bits, nh, seed);       // owned reference receiving the same operations
+  std::unique_ptr<bloom_filter> live;
+  if (via_wrap) {
+    bloom_ops(twin, 1 + r.below(30), dom, r);
+    if (r.coin()) (void)twin.get_bits_used();                                           // image with a valid count / with the stale marker
+    const Bytes img = to_std_bytes(twin.serialize());
+    if (img.size() != len) { checked(); fail(fam + "|image-size-differs-from-advertised", ctx0); return; }
+    memcpy(mem.get(), img.data(), len);
+    live.reset(new bloom_filter(bloom_filter::writable_wrap(mem.get(), len)));
+  } else {
+    live.reset(new bloom_filter(bloom_filter::builder::initialize_by_size(mem.get(), len, num_bits, nh, seed)));
+  }
+  const unsigned steps = 6 + static_cast<unsigned>(r.below(14));
+  sig(mix64(mix64(num_bits, nh), mix64(steps, via_wrap + 2 * dom)));
+  for (unsigned st = 0; st <= steps; ++st) {
+    const char* op = "initial";
+    // is the count stored in the caller memory valid (not the all-ones stale marker) before the operation?
+    bool stale = true; for (int i = 0; i < 8; ++i) stale = stale && mem[24 + i] == 0xFF;
+    if (st > 0) {
+      const Rng sub(r.next());
+      Rng a(sub), b(sub);
+      switch (r.below(8)) {
+        case 0: case 1: op = "update"; bloom_ops(*live, 1 + a.below(4), dom, a); bloom_ops(twin, 1 + b.below(4), dom, b); break;
+        case 2: { op = "query_and_update"; const uint64_t x = a.below(dom); const bool q1 = live->query_and_update(x), q2 = twin.query_and_update(x);
+                  VF_CHECK(q1 == q2, fam + "|query_and_update|result-differs-from-owned-twin", ctx0); break; }
+        case 3: case 4: { const bool un = r.below(8) < 5; op = un ? "union_with" : "intersect";
+                  bloom_filter other = bloom_filter::builder::create_by_size(num_bits, nh, seed); bloom_ops(other, a.below(40), dom, a);
+                  if (un) { live->union_with(other); twin.union_with(other); } else { live->intersect(other); twin.intersect(other); } break; }
+        case 5: op = "invert"; live->invert(); twin.invert(); break;
+        case 6: if (r.chance(0.4)) { op = "reset"; live->reset(); twin.reset(); } else { op = "get_bits_used"; (void)live->get_bits_used(); (void)twin.get_bits_used(); } break;
+        default: op = "update"; bloom_ops(*live, 1, dom, a); bloom_ops(twin, 1, dom, b); break;
+      }
+      count(std::string("bloom_mem_") + op + (stale ? "_from_stale_count" : "_from_valid_count"));
+    }
+    const std::string ctx = ctx0 + " step=" + std::to_string(st) + " after " + op + (stale ? " (stored count was stale)" : " (stored count was valid)");
+    const std::string K = fam + "|" + op;
+    try {
+      const Bytes li = to_std_bytes(live->serialize()), ti = to_std_bytes(twin.serialize());
+      VF_CHECK(li == ti, K + "|serialize-differs-from-owned-twin", ctx + " " + bytes_diff(ti, li));
+      if (!live->is_empty()) {
+        const Bytes m(mem.get(), mem.get() + std::min(len, li.size()));
+        VF_CHECK(li.size() == len && canon_bloom_count(m) == canon_bloom_count(li), K + "|caller-memory-differs-from-serialize", ctx + " " + bytes_diff(li, m));
+        count(m == li ? "bloom_mem_image_identical_to_serialize" : "bloom_mem_image_equal_up_to_stale_marker");
+      }
+      VF_CHECK(live->is_empty() == twin.is_empty(), K + "|is_empty-differs-from-owned-twin", ctx);
+      bloom_filter tc(twin);                                   // deep copy (owned), read out without touching the twin
+      const std::string want = observe_bloom(tc, dom);
+      const bloom_filter fresh = bloom_filter::wrap(mem.get(), len);
+      const std::string got = observe_bloom(fresh, dom);
+      if (got != want) { checked(); fail(K + "|fresh-wrap-of-caller-memory-differs", ctx + " " + first_diff(want, got)); } else checked();
+      const bloom_filter des = bloom_filter::deserialize(mem.get(), len);
+      bloom_filter& desm = const_cast<bloom_filter&>(des);
+      const std::string gd = observe_bloom(desm, dom);
+      if (gd != want) { checked(); fail(K + "|deserialize-of-caller-memory-differs", ctx + " " + first_diff(want, gd)); } else checked();
+      count("bloom_mem_steps_checked");
+    } catch (const std::exception& e) { checked(); fail(K + "|throws", ctx + " exception: " + e.what()); return; }
+  }
+}
+
 static void case_bloom(Rng& r) {
   describe("bloom (generating state)");
+  if (r.chance(0.3)) { bloom_memory_ops(r); return; }
   const uint64_t num_bits = r.chance(0.3) ? static_cast<uint64_t>(r.range(1, 130)) : static_cast<uint64_t>(r.range(1, G().thorough() ? 6000 : 1500));
   const uint16_t nh = static_cast<uint16_t>(r.range(1, 9));
   const uint64_t seed = r.next();
